@@ -202,6 +202,7 @@ func (c C14) Run(t *tape.Tape, opt core.RunOpt) (res core.Result) {
 		}
 	}()
 
+	chain, chainSent := t.Bool(1, 4), false
 	for opi := 0; opi < nOps; opi++ {
 		gen.St = workload.ReadSymTab(root, gen.N)
 		gen.ResetDoc()
@@ -245,9 +246,30 @@ func (c C14) Run(t *tape.Tape, opt core.RunOpt) (res core.Result) {
 				for i := 0; i < nfr; i++ {
 					frags = append(frags, gen.Valid())
 				}
+				if chain && !chainSent && root.GetType("Zc1") == nil {
+					// a chain of input types with defaults at every level, and
+					// directive uses whose literals spell out the upper levels only
+					chainSent = true
+					frags = append(frags, workload.Fragment{Kind: "default_chain", Text: "input Zc1 {\n  a: Int = 3\n}\n" +
+						"input Zc2 {\n  b: Int = 12\n  n: Zc1 = {}\n  l: [Zc1] = [{}]\n}\n" +
+						"input Zc3 {\n  b: Int = 13\n  n: Zc2\n}\n" +
+						"directive @zpol(p: Zc3 = {n: {}}) on OBJECT | FIELD_DEFINITION\n" +
+						"type ZcUse @zpol(p: {n: {}}) {\n  f: Int @zpol(p: {b: 1, n: {n: {}}})\n  g: Int @zpol\n}\n"})
+					res.Count("probe_default_chain_loaded", 1)
+				}
 			}
 			retry = nil
-			if poisoned {
+			if poisoned && chainSent && root.GetType("Zc1") != nil && t.Bool(1, 3) {
+				// an extension that gives a type of the chain another defaulted
+				// field is applied, then the document fails in validation: the
+				// literals written earlier must read as before
+				k := t.Draw(9)
+				tn := []string{"Zc1", "Zc2"}[t.Draw(2)]
+				p := workload.Fragment{Kind: "poison:validation:extend_chain_input_then_invalid", Mutates: true,
+					Text: fmt.Sprintf("extend input %s {\n  zz%d: Int = %d\n}\ntype ZzBad%d {\n}\n", tn, k, 1+k, k)}
+				pos := t.Draw(len(frags) + 1)
+				frags = append(frags[:pos], append([]workload.Fragment{p}, frags[pos:]...)...)
+			} else if poisoned {
 				p := gen.Poison()
 				pos := t.Draw(len(frags) + 1)
 				frags = append(frags[:pos], append([]workload.Fragment{p}, frags[pos:]...)...)
